@@ -18,6 +18,14 @@ func init() { register("C17", checkC17) }
 
 type rng17 struct{ a, b int }
 
+// selCase17: one invocation of `hermes2go -lines …` on a batch of n lines.
+type selCase17 struct {
+	a, b, n int
+	form    string // "" = a-b, "N" = `-lines <b>` (a = 1), "a-end" = `-lines <a>-end`
+	got     string
+	err     string
+}
+
 func parseRanges(s string) ([]rng17, error) {
 	var out []rng17
 	for _, tok := range strings.Fields(s) {
@@ -47,7 +55,7 @@ func checkC17(c *vh.Ctx) {
 		return
 	}
 	maxL, maxK := c.N(60, 400), c.N(16, 64)
-	c.Res.Rule = fmt.Sprintf("every (lines, nodes) with 1<=lines<=%d, 1<=nodes<=%d through the built calcHermesBatch (-size and -list) against the Lean model and against the property predicate; sampled ranges through the built hermes2go -lines option; generated batch files (blank lines, LF/CRLF, with/without final newline, sizes around the 32 KiB read buffer) through the byte-level line counter; distinct = distinct (lines,nodes) pairs + distinct files + distinct -lines invocations", maxL, maxK)
+	c.Res.Rule = fmt.Sprintf("every (lines, nodes) with 1<=lines<=%d, 1<=nodes<=%d through the built calcHermesBatch (-size and -list) against the Lean model and against the property predicate; the calculator's options in both orders; sampled ranges through the built hermes2go -lines option (forms a-b, N, a-end; options in every order); generated batch files (blank lines, LF/CRLF and both in one file, lines of blanks or tabs only, carriage returns inside a line and at the end of the file, with/without final newline, sizes around the 32 KiB read buffer) through the byte-level line counter; end to end on shaped files of near-real lines (also whitespace-only lines, mixed line ends, tabs / several blanks between the tokens); distinct = distinct (lines,nodes) pairs + distinct files + distinct -lines invocations", maxL, maxK)
 	c.Res.Exhaustive = true
 
 	// ---------- batch files with exactly L non-empty lines (plain LF), one per line count
@@ -74,12 +82,13 @@ func checkC17(c *vh.Ctx) {
 	errs := make([]string, len(pairs))
 	vh.Parallel(len(pairs), 16, func(i int) {
 		p := pairs[i]
-		so, se, err := vh.RunTool(20*time.Second, c.Scratch, calc, "-size", strconv.Itoa(p.k), "-batch", batchFile(p.l))
+		// the two options of the calculator in both orders (a job script may write either first)
+		so, se, err := vh.RunTool(20*time.Second, c.Scratch, calc, optionOrder(p.l+p.k, []string{"-size", strconv.Itoa(p.k)}, []string{"-batch", batchFile(p.l)})...)
 		if err != nil {
 			errs[i] = fmt.Sprintf("-size: %v %s", err, se)
 		}
 		sizes[i] = strings.TrimSpace(so)
-		so, se, err = vh.RunTool(20*time.Second, c.Scratch, calc, "-list", strconv.Itoa(p.k), "-batch", batchFile(p.l))
+		so, se, err = vh.RunTool(20*time.Second, c.Scratch, calc, optionOrder(p.l+p.k/2, []string{"-list", strconv.Itoa(p.k)}, []string{"-batch", batchFile(p.l)})...)
 		if err != nil {
 			errs[i] += fmt.Sprintf(" -list: %v %s", err, se)
 		}
@@ -142,11 +151,7 @@ func checkC17(c *vh.Ctx) {
 
 	// ---------- hermes2go -lines a-b: which batch lines are executed
 	nSel := c.N(120, 1500)
-	type selCase struct {
-		a, b, n int
-		got     string
-		err     string
-	}
+	type selCase = selCase17
 	sel := make([]selCase, nSel)
 	for i := range sel {
 		n := c.Rng.Range(1, maxL)
@@ -172,13 +177,21 @@ func checkC17(c *vh.Ctx) {
 			b = c.Rng.Range(a, n+5) // beyond the end of the file
 		}
 		sel[i] = selCase{a: a, b: b, n: n}
+		// the other two forms of the option (hermes_main.go:101-127): `-lines N` = the first N lines,
+		// `-lines a-end` = line a to the last one
+		switch i % 5 {
+		case 3:
+			sel[i].a, sel[i].form = 1, "N"
+		case 4:
+			sel[i].form = "a-end"
+		}
 	}
 	idRe := regexp.MustCompile(`^\[(\d+)\] Error`)
 	var mu sync.Mutex
 	vh.Parallel(nSel, 16, func(i int) {
 		s := &sel[i]
 		so, se, err := vh.RunTool(60*time.Second, c.Scratch, h2g, optionOrder(i, []string{"-module", "batch"}, []string{"-concurrent", strconv.Itoa(1 + i%5)},
-			[]string{"-batch", batchFile(s.n)}, []string{"-lines", fmt.Sprintf("%d-%d", s.a, s.b)})...)
+			[]string{"-batch", batchFile(s.n)}, []string{"-lines", s.option()})...)
 		if err != nil {
 			s.err = fmt.Sprintf("%v %s", err, se)
 			return
@@ -205,16 +218,21 @@ func checkC17(c *vh.Ctx) {
 	cases, impl = nil, nil
 	for _, s := range sel {
 		c.Eval()
-		c.Nontrivial(fmt.Sprintf("s%d-%d/%d", s.a, s.b, s.n))
-		replay := map[string]interface{}{"a": s.a, "b": s.b, "batch_lines": s.n, "executed_ids": s.got,
-			"how": "hermes2go -module batch -batch <file of n lines `x=i`> -lines a-b ; executed ids = `[i] Error` lines of the summary"}
+		c.Nontrivial(fmt.Sprintf("s%s/%d", s.option(), s.n))
+		c.Count("lines-option:" + map[string]string{"": "a-b", "N": "N", "a-end": "a-end"}[s.form])
+		replay := map[string]interface{}{"lines_option": s.option(), "batch_lines": s.n, "executed_ids": s.got,
+			"how": "hermes2go -module batch -batch <file of n lines `x=i`> -lines <lines_option> (forms a-b, N, a-end; options in any order); executed ids = `[i] Error` lines of the summary"}
 		if s.err != "" {
 			c.Violate("search", "hermes2go:crash", "hermes2go failed: "+s.err, replay)
 			continue
 		}
-		// property: exactly the lines a..min(b,n), each once
+		// property: exactly the lines a..min(b,n), each once (N: 1..min(N,n); a-end: a..n)
 		var want []string
-		for i := s.a; i <= s.b && i <= s.n; i++ {
+		last := s.b
+		if s.form == "a-end" {
+			last = s.n
+		}
+		for i := s.a; i <= last && i <= s.n; i++ {
 			want = append(want, strconv.Itoa(i-1))
 		}
 		w := strings.Join(want, " ")
@@ -222,14 +240,22 @@ func checkC17(c *vh.Ctx) {
 			w = "(empty)"
 		}
 		if w != s.got {
-			c.Violate("search", "lines-option", fmt.Sprintf("-lines %d-%d on %d lines executed ids [%s], expected [%s]", s.a, s.b, s.n, s.got, w), replay)
+			sig := "lines-option"
+			if s.form != "" {
+				sig += ":" + s.form
+			}
+			c.Violate("search", sig, fmt.Sprintf("-lines %s on %d lines executed ids [%s], expected [%s]", s.option(), s.n, s.got, w), replay)
 		}
-		cases = append(cases, fmt.Sprintf("part.sel %d %d %d", s.a, s.b, s.n))
+		if s.form == "a-end" {
+			cases = append(cases, fmt.Sprintf("part.sel %d 0 %d", s.a, s.n)) // no end line: the model's endLine <= 0
+		} else {
+			cases = append(cases, fmt.Sprintf("part.sel %d %d %d", s.a, s.b, s.n))
+		}
 		impl = append(impl, s.got)
 	}
 	saved2 := cases
 	c.Correspond("part.sel", cases, impl, 0, 0, func(i int) interface{} { return saved2[i] })
-	c.Sample(map[string]interface{}{"lines_option": fmt.Sprintf("%d-%d", sel[0].a, sel[0].b), "batch_lines": sel[0].n, "executed_ids": sel[0].got})
+	c.Sample(map[string]interface{}{"lines_option": sel[0].option(), "batch_lines": sel[0].n, "executed_ids": sel[0].got})
 
 	// ---------- byte-level line counter vs what hermes2go would execute
 	nFiles := c.N(150, 1500)
@@ -247,12 +273,31 @@ func checkC17(c *vh.Ctx) {
 		if crlf {
 			eol = "\r\n"
 		}
+		// every third file: the line end drawn per line (LF and CRLF in one file), lines of blanks / tabs only
+		// (not empty: the simulator executes them) and lone carriage returns; derived from a forked generator so
+		// that the draws of the other files stay as they were
+		mixed := i%3 == 2
+		var rm *vh.Rng
+		cls := fmt.Sprintf("crlf=%v", crlf)
+		if mixed {
+			rm = vh.NewRng(c.Seed ^ uint64(i)*0x9e3779b97f4a7c15 ^ 0xc17f11e5)
+			cls = "eol=mixed"
+		}
+		lineEnd := func() string {
+			if mixed && rm.Chance(0.5) {
+				if eol == "\n" {
+					return "\r\n"
+				}
+				return "\n"
+			}
+			return eol
+		}
 		var sb strings.Builder
 		nl := r.Range(0, 12)
 		big := r.Chance(0.25)
 		for j := 0; j < nl; j++ {
 			if r.Chance(0.3) {
-				sb.WriteString(eol) // blank line
+				sb.WriteString(lineEnd()) // blank line
 				continue
 			}
 			ln := r.Range(1, 6)
@@ -263,14 +308,44 @@ func checkC17(c *vh.Ctx) {
 					ln = target
 				}
 			}
-			sb.WriteString(strings.Repeat("a", ln))
-			sb.WriteString(eol)
+			text := strings.Repeat("a", ln)
+			if mixed {
+				switch rm.Intn(6) {
+				case 0:
+					text = strings.Repeat(" ", ln) // whitespace only
+				case 1:
+					text = "\t"
+				case 2:
+					text = text + "\r" // a carriage return inside the line (before the line end)
+				}
+			}
+			sb.WriteString(text)
+			sb.WriteString(lineEnd())
 		}
 		final := r.Chance(0.5)
 		if !final {
-			sb.WriteString("zz")
+			last := "zz"
+			if mixed {
+				switch rm.Intn(8) {
+				case 0:
+					last = "zz\r" // the file ends inside a CRLF
+				case 1:
+					sb.Reset()
+					sb.WriteString(strings.Repeat("b\n", nl))
+					last = " " // last line: one blank, no line end
+				case 2:
+					last = "\r" // nothing but a carriage return after the last line end
+					cls += ":lone-cr-at-end-of-file"
+				}
+			}
+			sb.WriteString(last)
 		}
-		files[i] = fileCase{bytes: []byte(sb.String()), desc: fmt.Sprintf("crlf=%v lines=%d big=%v finalNewline=%v", crlf, nl, big, final)}
+		if i == 2 { // one file of every run: a lone carriage return behind the last line end
+			sb.Reset()
+			sb.WriteString(strings.Repeat("x=1"+eol, nl) + "\r")
+			cls, final = "eol=mixed:lone-cr-at-end-of-file", false
+		}
+		files[i] = fileCase{bytes: []byte(sb.String()), desc: fmt.Sprintf("%s lines=%d big=%v finalNewline=%v", cls, nl, big, final)}
 	}
 	vh.Parallel(nFiles, 16, func(i int) {
 		p := filepath.Join(c.Scratch, fmt.Sprintf("f%d.txt", i))
@@ -287,12 +362,7 @@ func checkC17(c *vh.Ctx) {
 		c.Eval()
 		c.Nontrivial(fmt.Sprintf("f%d", i))
 		// what hermes2go executes: non-empty scanner lines
-		exec := 0
-		for _, ln := range strings.Split(strings.ReplaceAll(string(f.bytes), "\r\n", "\n"), "\n") {
-			if len(ln) > 0 {
-				exec++
-			}
-		}
+		exec := len(scannerLines17(string(f.bytes)))
 		c.Count("file:" + strings.Fields(f.desc)[0])
 		replay := map[string]interface{}{"file_bytes_quoted": strconv.Quote(string(f.bytes[:min(len(f.bytes), 200)])), "len": len(f.bytes), "desc": f.desc, "counted": f.counted, "executed_lines": exec}
 		if f.err != "" {
@@ -322,6 +392,32 @@ func checkC17(c *vh.Ctx) {
 
 	// ---------- end to end on shaped files: calculator ranges -> simulator -lines, lines identified by content
 	c17EndToEnd(c, calc, h2g)
+}
+
+// option renders the -lines argument of a selection case.
+func (s selCase17) option() string {
+	switch s.form {
+	case "N":
+		return strconv.Itoa(s.b)
+	case "a-end":
+		return fmt.Sprintf("%d-end", s.a)
+	}
+	return fmt.Sprintf("%d-%d", s.a, s.b)
+}
+
+// scannerLines17: the batch lines the simulator executes (hermes_main.go:62-68) — the file cut at every LF,
+// one carriage return before the LF (or before the end of the file) removed, lines of length 0 dropped. Written
+// from the documentation of bufio.ScanLines, not by calling it.
+func scannerLines17(file string) []string {
+	var out []string
+	parts := strings.Split(file, "\n")
+	for _, ln := range parts {
+		ln = strings.TrimSuffix(ln, "\r")
+		if len(ln) > 0 {
+			out = append(out, ln)
+		}
+	}
+	return out
 }
 
 func min(a, b int) int {
